@@ -283,18 +283,25 @@ theorem riffPayload64_eq' (s : MuxState) (hx : needsVP8X s = true)
       have hb := hf f hfm
       rw [subChunkSize_eq f.data (by omega)]
 
-/-- mux.go assembleExtended refuses, with an error and before writing anything, a file whose RIFF
-    payload would not fit 32 bits — provided no single frame's chunk size wraps on its own. -/
-theorem assemble_too_large (s : MuxState) (hv : validate s = .ok ()) (hx : needsVP8X s = true)
-    (h1 : optLen s.iccData < 4294967296) (h2 : optLen s.exifData < 4294967296) (h3 : optLen s.xmpData < 4294967296)
-    (hf : ∀ f ∈ s.frames, frameLen (isAnimated s) f.data < 4294967296)
-    (hbig : exactRiffSize s > 4294967295) : assemble s = .err .other := by
-  unfold assemble
-  rw [hv]
-  simp only [Res.bind_ok, hx, Bool.not_true, Bool.false_eq_true, if_false]
-  unfold assembleExtended
-  simp only [riffPayload64_eq' s hx h1 h2 h3 hf]
-  rw [if_pos hbig]
+/-- when the exact size fits, no ANMF payload is too large for its size field -/
+theorem anmf_fits (s : MuxState) (hx : needsVP8X s = true) (hsz : exactRiffSize s ≤ 4294967286) :
+    anmfTooLarge s = false := by
+  unfold anmfTooLarge
+  cases ha : isAnimated s with
+  | false => rfl
+  | true =>
+    simp only [Bool.true_and, List.any_eq_false, decide_eq_true_eq]
+    intro f hf
+    unfold exactRiffSize at hsz
+    simp only [hx, ha, if_true] at hsz
+    have hle := mem_le_sum (fun f => frameLen true f.data) s.frames f hf
+    have hfl : frameLen true f.data = 24 + optLen (splitAlphaAndBitstream f.data).1 +
+        padLen (splitAlphaAndBitstream f.data).2.length := by unfold frameLen; simp
+    simp only [hfl] at hle
+    simp only [anmfChunkSize, chunkHeaderSize]
+    cases hα : (splitAlphaAndBitstream f.data).1 with
+    | none => rw [hα] at hle; simp only [optLen, padLen, Option.getD_none, List.length_nil] at hle ⊢; omega
+    | some a => rw [hα] at hle; simp only [optLen, padLen, Option.getD_some] at hle ⊢; omega
 
 theorem validate_frames_ne {s : MuxState} (hv : validate s = .ok ()) : s.frames ≠ [] := by
   intro h
@@ -346,8 +353,9 @@ theorem assemble_eq (s : MuxState) (hv : validate s = .ok ()) (hsz : exactRiffSi
       intro f hfm
       have := mem_le_sum (fun f => frameLen (isAnimated s) f.data) s.frames f hfm
       omega
-    unfold assembleExtended
-    simp only [htot]
+    have hanmf := anmf_fits s hx hsz
+    unfold assembleExtended assembleExtendedWith
+    simp only [htot, hanmf, Bool.false_eq_true, and_false, if_false, if_true]
     rw [if_neg (by omega), u32_id (by omega)]
     unfold riffWrap
     rw [← hlen]
